@@ -49,6 +49,17 @@ func c10offsets(c *ctx, bounds []int, total, extra int) []int {
 		out = append(out, k)
 	}
 	sort.Ints(out)
+	// some instants are queried twice (two evaluations within one clock reading)
+	if c.rng.Intn(3) == 0 {
+		var dup []int
+		for _, v := range out {
+			dup = append(dup, v)
+			if c.rng.Intn(4) == 0 {
+				dup = append(dup, v)
+			}
+		}
+		out = dup
+	}
 	// random thinning so that some traces skip whole stages between queries
 	if c.rng.Intn(3) == 0 && len(out) > 4 {
 		keep := []int{0}
@@ -99,16 +110,21 @@ func runC10Staged(c *ctx, unit int, st [][2]int, extra int) (tr c10trace) {
 }
 
 func runC10Ramp(c *ctx, unit int, s, e, d int, extra int) (tr c10trace) {
+	return runC10RampPer(c, unit, 1, s, e, d, extra)
+}
+
+// per: the rates are "s per <per> units"; the ramp duration d (in units) need not be a whole multiple of it
+func runC10RampPer(c *ctx, unit, per int, s, e, d int, extra int) (tr c10trace) {
 	u := c10units[unit]
 	tr = c10trace{Kind: "ramp", Unit: u.name, S: s, E: e, D: d, Ev: [][2]int{}}
-	tr.Arg = fmt.Sprintf("%d/1%s -> %d/1%s over %d%s", s, u.name, e, u.name, d, u.name)
+	tr.Arg = fmt.Sprintf("%d/%d%s -> %d/%d%s over %d%s", s, per, u.name, e, per, u.name, d, u.name)
 	defer func() {
 		if r := recover(); r != nil {
 			tr.Panicked = true
 			tr.Err = fmt.Sprint(r)
 		}
 	}()
-	rates, err := ramp.CalculateRampRate(fmt.Sprintf("%d/1%s", s, u.name), fmt.Sprintf("%d/1%s", e, u.name), "none",
+	rates, err := ramp.CalculateRampRate(fmt.Sprintf("%d/%d%s", s, per, u.name), fmt.Sprintf("%d/%d%s", e, per, u.name), "none",
 		time.Duration(d)*u.d, 0)
 	if err != nil {
 		tr.Err = err.Error()
@@ -228,6 +244,12 @@ func init() {
 				d = 1 + c.rng.Intn(4)
 			}
 			w.write(runC10Ramp(c, unit, s, e, d, 5+c.rng.Intn(40)))
+			// the same ramp with its rates given per 2..1000 units: the duration is then rarely a whole number of them
+			if k%2 == 0 {
+				per := []int{2, 3, 7, 10, 60, 1000}[c.rng.Intn(6)]
+				// (a ramp shorter than its rate unit is rejected by design)
+				w.write(runC10RampPer(c, unit, per, s, e, per+d+c.rng.Intn(per), 5+c.rng.Intn(40)))
+			}
 		}
 		// (4) long profiles with large targets: stages of minutes and hours (soak tests), targets up to 10^6
 		for k := 0; k < n/3; k++ {
